@@ -59,7 +59,7 @@ def scenarios(tier, seed):
             if weighted:
                 w = {"g": [0.7 + 0.1 * (u % 4) for u in range(n)], "w": [0.3 + 0.1 * (i % 5) for i in range(len(edges))]}
             out.append({"sim": sim, "n": n, "edges": edges, "weights": w, "tau": 1.0, "gamma": 1.0, "p": 0.5, "tmin": 0,
-                        "tmax": 400 if tier == "quick" else 4000, "init_kw": {"initial_infecteds": [1, 2, 3]}, "weighted": weighted,
+                        "tmax": 400 if tier == "quick" else 1500, "init_kw": {"initial_infecteds": [1, 2, 3]}, "weighted": weighted,
                         "long": True, "seed": 99 + (1 if weighted else 0)})
     # table-driven fast_nonMarkov_SIS whose durations and delays are small multiples of one step: simultaneous events
     from harness import event_scn
